@@ -66,7 +66,8 @@ def apply_request_impl(path, req, via_cli):
         return impl.edit(path, {k: v for k, v in req.items()})
     if req["private"]:
         argv += ["--private"]
-    return impl.cli(argv)
+    import random as _r
+    return impl.cli(_r.choice([[], [], ["-v"], ["-q"]]) + argv)
 
 
 def spec_apply(meta, req):
